@@ -67,6 +67,8 @@ def rel(a, b, scale=0.0):
 
 
 def check(run):
+    import genlib
+    genlib.validate_spline_modifier(run, n=run.n(80, 800))
     run.rule = ("random start/end potentials from the built-in forms (zbl, bornmayer, buck -> buck, dispersion-only buck, lj, morse), detach in [0.6,1.5], attach = detach + [0.4,1.5], "
                 "r_min strictly between; for each: coefficients of the real spline object inserted into the generated system (relative residual <= 1e-7), regions, shape, one-sided join "
                 "conditions for value/deriv/deriv2 at detach, attach (and r_min), upward-shift constant, and identical doubles from the Python classes, the spline() modifier and as.buck4")
